@@ -253,12 +253,35 @@ Print Assumptions C13_class_defs.
 
 (* ====== ties to the source: BEGIN (written by bin/mkties) ====== *)
 (* The Go functions named here are translated into Gallina from /repo's source on every run
-   (tools/gen/code.go -> Gen/Code/<Eco>.v); Tie/<Eco>.v, Tie/<Eco>Range.v prove each translation equal to the
-   model the theorems above speak about.  If the code changes so that a tie no longer holds,
-   this file no longer checks. *)
-From Verif.Tie Require Gem.
+   (tools/gen -> Gen/Code/<Eco>.v for loop-free functions, Gen/Loops/<Eco>.v for functions with
+   loops and index expressions, where a panic is Panic and a loop takes fuel); Tie/<Eco>.v,
+   Tie/<Eco>Range.v and Tie/Loops/<Eco>.v prove each translation equal to the model the theorems
+   above speak about (and, for the loop functions: no panic, termination within a linear bound).
+   If the code changes so that a tie no longer holds, this file no longer checks. *)
+Require Verif.Tie.Gem.
+Require Verif.Tie.Loops.Gem.
 Definition C13_tie_gem_compareInt := Verif.Tie.Gem.tie_gem_compareInt.
 Print Assumptions C13_tie_gem_compareInt.
 Definition C13_tie_gem_compareSegments := Verif.Tie.Gem.tie_gem_compareSegments.
 Print Assumptions C13_tie_gem_compareSegments.
+Definition C13_tie_loops_gem_removeTrailingZeros_exact := Verif.Tie.Loops.Gem.tie_loops_gem_removeTrailingZeros_exact.
+Print Assumptions C13_tie_loops_gem_removeTrailingZeros_exact.
+Definition C13_tie_loops_gem_removeTrailingZeros := Verif.Tie.Loops.Gem.tie_loops_gem_removeTrailingZeros.
+Print Assumptions C13_tie_loops_gem_removeTrailingZeros.
+Definition C13_tie_removeTrailingZeros_total_model := Verif.Tie.Loops.Gem.removeTrailingZeros_total_model.
+Print Assumptions C13_tie_removeTrailingZeros_total_model.
+Definition C13_tie_loops_gem_split_exact := Verif.Tie.Loops.Gem.tie_loops_gem_split_exact.
+Print Assumptions C13_tie_loops_gem_split_exact.
+Definition C13_tie_loops_gem_split := Verif.Tie.Loops.Gem.tie_loops_gem_split.
+Print Assumptions C13_tie_loops_gem_split.
+Definition C13_tie_Version_splitNumericAndPrerelease_total_model := Verif.Tie.Loops.Gem.Version_splitNumericAndPrerelease_total_model.
+Print Assumptions C13_tie_Version_splitNumericAndPrerelease_total_model.
+Definition C13_tie_loops_gem_compareSegmentArrays := Verif.Tie.Loops.Gem.tie_loops_gem_compareSegmentArrays.
+Print Assumptions C13_tie_loops_gem_compareSegmentArrays.
+Definition C13_tie_compareSegmentArrays_total_model := Verif.Tie.Loops.Gem.compareSegmentArrays_total_model.
+Print Assumptions C13_tie_compareSegmentArrays_total_model.
+Definition C13_tie_loops_gem_compare := Verif.Tie.Loops.Gem.tie_loops_gem_compare.
+Print Assumptions C13_tie_loops_gem_compare.
+Definition C13_tie_Version_Compare_total_model := Verif.Tie.Loops.Gem.Version_Compare_total_model.
+Print Assumptions C13_tie_Version_Compare_total_model.
 (* ====== ties to the source: END ====== *)
